@@ -13,8 +13,9 @@
                                       are looked up in the final var_map (unchanged when absent)
      filters_hold                     no filters: true; else the `ground` map (every key of the bindings whose
                                       resolution is a constant) is built and evaluate_filters is called
-     evaluate_filters                 a filter whose variable is not in the ground map is skipped; if the value is a
-                                      key of the ground map only = and != are compared, by id; otherwise the numeric
+     evaluate_filters (as of 7537bd2) a filter whose variable is not in the ground map is skipped; if the value is a
+                                      key of the ground map, = and != compare the two ids and <, <=, >, >= the numeric
+                                      values of the two bound constants; otherwise the numeric
                                       value of the bound constant is compared with the numeric value of the value
                                       string (0.0 when it does not parse)
      first_fresh_variable_index       max over goal variables named v<usize> of n+1
@@ -180,11 +181,12 @@ Definition cmp_num (op : cmp) (a b : Z) : bool :=
   | CEq => Z.eqb a b
   | CNe => negb (Z.eqb a b)
   end.
-Definition cmp_id (op : cmp) (a b : N) : bool :=
+(* two bound variables (7537bd2): = and != compare identifiers, the order operators the numeric values *)
+Definition cmp_var (num : N -> Z) (op : cmp) (a b : N) : bool :=
   match op with
   | CEq => N.eqb a b
   | CNe => negb (N.eqb a b)
-  | _ => true
+  | _ => cmp_num op (num a) (num b)
   end.
 
 (* bindings.keys().filter_map(|name| match resolve_term(Var(name)) { Constant(id) => Some((name, id)), _ => None }) *)
@@ -199,7 +201,7 @@ Definition eval_filter (num : N -> Z) (g : list (string * N)) (f : fcond) : bool
   | Some lhs =>
     match fval f with
     | FVar y => match lookup y g with
-                | Some rhs => cmp_id (fop f) lhs rhs
+                | Some rhs => cmp_var num (fop f) lhs rhs
                 | None => cmp_num (fop f) (num lhs) 0%Z
                 end
     | FNum z => cmp_num (fop f) (num lhs) z
